@@ -26,6 +26,10 @@ class ExcelType:
     def __new__(cls, value):
         inst = super().__new__(cls)
         assert isinstance(value, cls.native_types), value
+        if isinstance(value, (numpy.integer, numpy.floating)):
+            # Keep plain Python numbers inside: numpy scalars compare to
+            # numpy.bool_ (which Boolean rejects) and lack __trunc__ etc.
+            value = value.item()
         inst.value = value
         return inst
 
